@@ -1,5 +1,22 @@
 import PqlModel.Props.C07
+import PqlModel.Props.C07Full
 #print axioms Pql.C07.C07_precedence_table
 #print axioms Pql.C07.C07_spec_prec_eq_model
 #print axioms Pql.C07.C07_join_kinds
 #print axioms Pql.C07.C07_keywords
+#print axioms Pql.C07.C07_expr
+#print axioms Pql.C07.C07_expr_all
+#print axioms Pql.C07.C07_trail
+#print axioms Pql.C07.C07_higher
+#print axioms Pql.C07.C07_exprList
+#print axioms Pql.C07.C07_sortTerm
+#print axioms Pql.C07.C07_column
+#print axioms Pql.C07.C07_operator
+#print axioms Pql.C07.C07_tabular
+#print axioms Pql.C07.C07_let
+#print axioms Pql.C07.C07_statement
+#print axioms Pql.C07.C07_parse_partial
+#print axioms Pql.C07.C07_parse_src_partial
+#print axioms Pql.C07.C07_expr_unrestricted_false
+#print axioms Pql.C07.C07_canon_needed
+#print axioms Pql.C07.C07_parse_unrestricted_false
